@@ -138,6 +138,20 @@ CHECKS = {
         design_ref='DESIGN.md section 9 C08',
         note=BASE_NOTE + 'Partial: whole-program behaviour at -O2 is validated by differential runs.',
         technique='Lean 4 erasure theorem over an assembler model fed with the real instruction streams + differential runs'),
+    'C11': dict(
+        category='proof',
+        text='Theorems: the collector accepts every well-bracketed marker stream with non-decreasing offsets and produces '
+             'records that are pairwise nested or disjoint and lie inside the stream\'s span (induction over bracket '
+             'structure, any nesting depth); the lookup returns a record that contains the address and lies inside every '
+             'other record containing it (innermost), and never answers none for a covered address; markers (hence record '
+             'boundaries) sit on instruction boundaries. The collector model runs on the REAL marker events of every module; '
+             'the lookup model is compared with DebugInfo.find_stmt at every instruction start; boundaries, laminarity, routine '
+             'records, recorded lines and the attribution of every body instruction to the statement whose markers enclose it '
+             'are evaluated on the real modules (levels 0-2).',
+        design_ref='DESIGN.md section 9 C11',
+        note=BASE_NOTE + 'That the code generator emits a well-bracketed stream is checked per module, not proved for the generator; '
+             'the synthesised block start/end records of finalize are corresponded, not modelled.',
+        technique='Lean 4 theorems over a marker/record model + correspondence on real modules'),
 }
 
 PENDING = ('not yet decided by the Lean framework in this commit; design in DESIGN.md section 9, implementation order in '
